@@ -280,7 +280,19 @@ fn run_case(seed: u64, idx: u64, _tier: Tier, out: &mut CaseOut) {
             // unicode_strikeout(false) == default minus U+0336
             let mut p = Profile::full();
             p.strike = true;
-            let doc = gen_doc(&mut rng, &p);
+            // struck-out runs may end in white space, also of the non-ASCII kind
+            p.edge_space = rng.chance(1, 2);
+            if rng.chance(1, 2) {
+                p.uni_space_permille = 200;
+            }
+            let mut doc = gen_doc(&mut rng, &p);
+            if rng.chance(1, 3) {
+                ast::for_each_el_mut(&mut doc, &mut |e| {
+                    if matches!(e.tag.as_str(), "s" | "del") && rng.chance(1, 2) {
+                        e.children.push(ast::Node::Raw(rng.pick(&["\u{a0}", "\u{3000}", "\u{2003}", "\u{202f}", " "]).to_string()));
+                    }
+                });
+            }
             let input = ser_canonical(&doc);
             let mut opt = base.clone();
             opt.strikeout = Some(false);
